@@ -156,7 +156,14 @@ func writeJSON(dir, name string, v interface{}) {
 
 type rng struct{ s uint64 }
 
-func newRng(seed int64) *rng { return &rng{s: uint64(seed)*0x9E3779B97F4A7C15 + 0x1234567} }
+// newRng scrambles the seed first: consecutive seeds must not give shifted copies of one stream
+func newRng(seed int64) *rng {
+	z := uint64(seed) + 0x632BE59BD9B4E019
+	z = (z ^ (z >> 30)) * 0xBF58476D1CE4E5B9
+	z = (z ^ (z >> 27)) * 0x94D049BB133111EB
+	z ^= z >> 31
+	return &rng{s: z}
+}
 
 func (r *rng) next() uint64 {
 	r.s += 0x9E3779B97F4A7C15
